@@ -175,6 +175,18 @@ func init() {
 					continue
 				}
 				for i, n := range b.Nodes {
+					// `defer env.bridge(ctx)()`: the helper stores its parameter on its receiver
+					// at once and returns the closure that puts the previous value back
+					if ds, isDefer := n.(*ast.DeferStmt); isDefer {
+						if inner, isCall := ast.Unparen(ds.Call.Fun).(*ast.CallExpr); isCall {
+							if k, onRecv, ok := c.closerHelperStore(originOf(Callee(info, inner)), fld); ok && onRecv && k >= 0 && k < len(inner.Args) && identObj(info, inner.Args[k]) == ctxP {
+								if se, isSel := ast.Unparen(inner.Fun).(*ast.SelectorExpr); isSel {
+									stores = append(stores, st{identObj(info, se.X), Loc{b, i}})
+								}
+							}
+						}
+						continue
+					}
 					as, ok := n.(*ast.AssignStmt)
 					if !ok || len(as.Lhs) != 1 || len(as.Rhs) != 1 {
 						continue
